@@ -6,6 +6,7 @@ from hypothesis import strategies as st
 
 from .. import arr as A
 from .. import unit as U
+from .. import modelslice as MS
 from ..core import sstr, Failure, drive
 from ..gen import arrays as G
 
@@ -181,8 +182,14 @@ def check_unit(case, rec):
     return fails
 
 
-PARTS = {"unit": check_unit}
+def check_model(model, rec):
+    """Whole models of conversion commands over shared integer and float columns read from a file."""
+    return MS.model_failures(model, rec, lambda sig, cmd: cmd in CMDS, "model")
+
+
+PARTS = {"unit": check_unit, "model": check_model}
 
 
 def run_shard(ctx, rec):
-    drive(ctx, rec, "unit", G.unit_case(CMDS, max_rank=2, min_cells=2, two_distinct=True), check_unit, ctx.n(6000, 200000))
+    drive(ctx, rec, "model", MS.model_cases(cmds=CMDS + ["Copy", "Sum"]), check_model, ctx.n(1000, 20000))
+    drive(ctx, rec, "unit", G.unit_case(CMDS, max_rank=2, min_cells=2, two_distinct=True, close=True), check_unit, ctx.n(6000, 200000))
